@@ -45,24 +45,6 @@ template<> class QMap<QString, QMap<QString, QXmppPresence>> : public VpSlotMap<
 #undef private
 #undef protected
 
-// ------------------------------------------------------------------------------------------------ QXmppPresence (cut)
-// The CONTENTS of a presence are outside C12 (DESIGN: X).  The roster manager only copies presences and reads from()
-// (QXmppStanza, real) and type().  QXmppPresence.cpp is therefore not linked; the members that are reached are defined
-// here over a lean private part holding just the type.  Layout of the class itself is the real header's.
-#ifdef C12_LEAN_PRESENCE
-class QXmppPresencePrivate : public QSharedData { public: QXmppPresence::Type type = QXmppPresence::Available; };
-QXmppPresence::QXmppPresence(QXmppPresence::Type type) : d(new QXmppPresencePrivate) { d->type = type; }
-QXmppPresence::QXmppPresence(const QXmppPresence &other) = default;
-QXmppPresence::QXmppPresence(QXmppPresence &&) = default;
-QXmppPresence::~QXmppPresence() = default;
-QXmppPresence &QXmppPresence::operator=(const QXmppPresence &other) = default;
-QXmppPresence &QXmppPresence::operator=(QXmppPresence &&) = default;
-bool QXmppPresence::isXmppStanza() const { return true; }
-QXmppPresence::Type QXmppPresence::type() const { return d->type; }
-void QXmppPresence::setType(QXmppPresence::Type type) { d->type = type; }
-void QXmppPresence::parse(const QDomElement &) { vp_c12_model_limit(false); }          // never reached
-void QXmppPresence::toXml(QXmlStreamWriter *) const { vp_c12_model_limit(false); }     // never reached
-#endif
 
 // ------------------------------------------------------------------------------------------------ environment
 static QString g_ownBare, g_ownFull;
